@@ -7,8 +7,11 @@ let ivariant = function "128" -> isap128 | "128a" -> isap128a | "80pq" -> isap80
 let dec_str = function DecShort -> "SHORT" | DecDone (r, m) -> Printf.sprintf "%d %s" (int_of_z r) (hex_of_bytes m)
 let kslots : (int, isap_variant * isap_key) Hashtbl.t = Hashtbl.create 8
 
-let process (toks : string list) : string =
+let rec process (toks : string list) : string =
   match toks with
+  (* the same operations through the C++ classes (key constructor or set_key, pointer or byte_array overload of encrypt) *)
+  | "SIVC" :: v :: op :: k :: n :: ad :: x :: _ -> process ["SIV"; v; op; k; n; ad; x]
+  | "ISAPC" :: v :: op :: k :: n :: ad :: x :: _ -> process ["ISAP"; v; op; k; n; ad; x]
   | ["SIV"; v; "ENC"; k; n; ad; pt] ->
     let (c, clen) = x_siv_encrypt (avariant v) (bytes_of_hex k) (bytes_of_hex n) (bytes_of_hex ad) (bytes_of_hex pt) in
     Printf.sprintf "%s %d" (hex_of_bytes c) (int_of_nat clen)
@@ -39,4 +42,4 @@ let process (toks : string list) : string =
      | _ -> "UNSUPPORTED")
   | _ -> "UNSUPPORTED"
 
-let () = List.iter (fun n -> register n process) ["SIV"; "SIVSPEC"; "ISAP"; "ISAPSPEC"; "IK"]
+let () = List.iter (fun n -> register n process) ["SIV"; "SIVSPEC"; "ISAP"; "ISAPSPEC"; "IK"; "SIVC"; "ISAPC"]
